@@ -621,6 +621,8 @@ class SeqModel:
                 self.fail('success_with_nan_state', dict(routine='eig'), sig=dict(seq=True, routine='eig'))
             if self.tds_failed:
                 self.ctx.count('seq:eig_true_after_failed_tds')
+            if ss.TDS.test_ok is False:
+                self.fail('success_after_failed_initialisation', dict(routine='eig', exit_code=int(ss.exit_code)), sig=dict(seq=True, clause2='init', routine='eig'))
         else:
             self.failed_since_pf = True
             self.fail_paths.add('eig')
